@@ -13,7 +13,7 @@ from models import cint
 from models.cint import TN, TYPES, SIZE, UNS, ev, text
 
 LEVEL = "exploration"
-BUDGET = {"quick": 300, "thorough": 1500}
+BUDGET = {"quick": 900, "thorough": 3600}     # deadlines, not expected times (a loaded machine is 5-8x slower)
 BINOPS = ["+", "-", "*", "/", "%", "&", "|", "^", "<<", ">>", "<", "<=", ">", ">=", "==", "!=", "&&", "||"]
 UNOPS = ["-", "~", "!", "+"]
 GENERIC = "_Bool:0, char:1, short:2, int:3, long:4, unsigned char:5, unsigned short:6, unsigned int:7, unsigned long:8, default:99"
@@ -133,6 +133,26 @@ def gen_float_cases(tier):
             tr = int(v)
             if t == 0 or cint.fits(tr, t):
                 out.append(("f/cast/%s<-%s" % (TN[t], FT[ta]), "((%s)%s)" % (TYPES[t], a), "I"))
+    # special values made by constant arithmetic: NaN, infinities, negative zero; every comparison and logical operator in
+    # both operand orders (an unordered comparison is false except !=), arithmetic, truth value, conversions between the types
+    spec = [(t.replace("%s", sfx), i) for i, sfx in enumerate(FSUF) for t in ("(0.0%s/0.0%s)", "(-(0.0%s/0.0%s))", "(1.0%s/0.0%s)", "(-1.0%s/0.0%s)", "(-0.0%s)", "(1e300%s*1e300%s)")
+            if not (i == 0 and t.startswith("(1e300"))]
+    spec += [("(1e30f*1e30f)", 0)]
+    norm = [("1.0", 1), ("0.0", 1), ("-1.5f", 0), ("2.0L", 2)]
+    for op in ("<", "<=", ">", ">=", "==", "!=", "&&", "||"):
+        for (a, ta) in spec:
+            for (b, tb) in spec[::3] + norm:
+                out.append(("f/special-cmp/%s/%s,%s" % (op, FT[ta], FT[tb]), "(%s %s %s)" % (a, op, b), "I"))
+                out.append(("f/special-cmp/%s/%s,%s" % (op, FT[tb], FT[ta]), "(%s %s %s)" % (b, op, a), "I"))
+    for (a, ta) in spec:
+        out.append(("f/special/not/%s" % FT[ta], "(!%s)" % a, "I"))
+        out.append(("f/special/cond/%s" % FT[ta], "(%s ? 3 : 4)" % a, "I"))
+        out.append(("f/special/neg/%s" % FT[ta], "(-%s)" % a, "fdl"))
+        for d in range(3):
+            out.append(("f/special/cast/%s<-%s" % (FT[d], FT[ta]), "((%s)%s)" % (FT[d], a), "fdl"))
+        for op in "+-*/":
+            for (b, tb) in spec[::4] + norm[:2]:
+                out.append(("f/special-bin/%s/%s,%s" % (op, FT[ta], FT[tb]), "(%s %s %s)" % (a, op, b), "fdl"))
     # double arithmetic folded in a wider format and rounded twice is off by one ulp for about 1 in 2000 operand pairs:
     # a dense family of quotients and products makes that visible (and checks FLT_EVAL_METHOD 0 folding in general)
     nb = 200 if tier == "quick" else 500
